@@ -257,7 +257,7 @@ def variants(rng, case, tier):
             out.append(xf_reroot(rng, case, tg, merge=rng.random() < 0.5))
     for tg in rng.sample(edges, min(nmax, len(edges))):
         out.append(xf_split(rng, case, tg))
-    out.append(xf_split(rng, case, rng.choice(edges), extreme=rng.choice([1e-9, 1e-12, 1 - 1e-10])))
+    out.append(xf_split(rng, case, rng.choice(edges), extreme=rng.choice([1e-9, 1e-12, 1 - 1e-10, 0.0, 0.0, 1.0])))
     return out
 
 
@@ -273,6 +273,194 @@ def large_pair(rng, ncols=140000):
                 pseed=1, scoped=None, bins=None, light="lnL", xf="base", factor=1)
     permuted = dict(base, aln=[[n, "".join(r[p] for p in perm)] for n, r in zip(names, rows)], xf="cols", perm=perm)
     return base, permuted
+
+
+# ------------------------------------------------------------------ transformations done by the real cogent3 API
+
+def unrooted_tree(rng, ntips):
+    while True:
+        t = c02.rand_tree(rng, ntips)
+        if len(t["ch"]) >= 3:
+            return t
+
+
+def canon_splits(tree):
+    """node name -> (unrooted edge as the sorted tip set not containing the smallest tip name, tip set below the node)"""
+    alltips = sorted(c02.tips(tree))
+    out = {}
+    for x in c02.nodes(tree):
+        if x["len"] is None:
+            continue
+        below = set(c02.tips(x))
+        side = below if alltips[0] not in below else set(alltips) - below
+        out[x["name"]] = (tuple(sorted(side)), below)
+    return out
+
+
+def expected_selected(tree, a, c, o, stem, clade):
+    """edges named by tip_names=[a, c] relative to the outgroup o, as unrooted edges: among the edges whose side
+    away from o contains a and c, the one with the smallest such side is the stem; the clade is every edge lying
+    strictly inside that side.  Independent of where the tree is rooted."""
+    alltips = set(c02.tips(tree))
+    sp = canon_splits(tree)
+    away = {nm: (below if o not in below else alltips - below) for nm, (_, below) in sp.items()}
+    cands = [s_ for s_ in away.values() if a in s_ and c in s_]
+    star = min(cands, key=len)
+    stem = bool(stem) if stem is not None else False
+    clade = bool(clade) if clade is not None else (not stem)
+    sel = set()
+    for nm, s_ in away.items():
+        if (stem and s_ == star) or (clade and s_ < star):
+            sel.add(sp[nm][0])
+    return sorted(list(x) for x in sel)
+
+
+API_MODELS = ["HKY85", "GTR", "TN93", "GY94", "MG94HKY", "Y98", "HKY85", "K80"]
+
+
+def api_base(rng, tier, model=None, ntips=None):
+    model = model or rng.choice(API_MODELS)
+    cls = c02.model_class(model)
+    codon = cls == "codon"
+    ntips = ntips or rng.randint(5, 5 if codon else 7)
+    tree = unrooted_tree(rng, ntips)
+    names = c02.tips(tree)
+    rng.shuffle(names)
+    recode = rng.random() < 0.6
+    gc = rng.choice([None, 2, 4]) if codon else None
+    words = c02.sense_codons(gc) if codon else None
+    case = dict(model=model, moltype="dna", tree=c02.newick(tree), _t=tree,
+                aln=c02.rand_alignment(rng, names, "codon" if codon else "dna", rng.randint(3, 5) if codon else rng.randint(6, 14), words, recode),
+                mprobs=c02.rand_mprobs(rng, c02.DNA) if (cls.startswith("nuc") and model not in c02.EQUAL_FREQ) else None,
+                pseed=rng.randrange(1 << 30), scoped=None, bins=None, recode_gaps=recode, gc=gc, xf="api")
+    return case
+
+
+def rand_rootings(rng, tree, k):
+    inner = [["rooted_at", x["name"]] for x in c02.nodes(tree) if x["ch"] and x["len"] is not None]
+    tp = [["rooted_with_tip", t] for t in c02.tips(tree)]
+    pool = inner + rng.sample(tp, min(len(tp), 3))
+    rng.shuffle(pool)
+    out = pool[:k]
+    if inner and not any(r[0] == "rooted_at" for r in out):
+        out[0] = rng.choice(inner)
+    return out
+
+
+def api_cases(rng, tier):
+    quick = tier == "quick"
+    out = []
+    opts = [dict(clade=True), dict(stem=True), dict(stem=True, clade=True), dict()]
+    for k in range(10 if quick else 120):
+        c = api_base(rng, tier, model=API_MODELS[k % len(API_MODELS)])
+        a, cc, o = rng.sample(c02.tips(c["_t"]), 3)
+        c["scoped"] = dict(tip_names=[a, cc], outgroup_name=o, **opts[k % len(opts)])
+        c["api"] = {"op": "scoped_reroot", "rootings": rand_rootings(rng, c["_t"], 2 if quick else 3)}
+        out.append(c)
+    for k in range(7 if quick else 80):
+        c = api_base(rng, tier, model=API_MODELS[(k + 3) % len(API_MODELS)])
+        if k % 2:
+            named = [x["name"] for x in c02.nodes(c["_t"]) if x["len"] is not None]
+            c["scoped"] = {"edges": sorted(rng.sample(named, rng.randint(1, len(named) // 2)))}
+        c["api"] = {"op": "annotated_roundtrip", "rootings": rand_rootings(rng, c["_t"], 2 if quick else 3)}
+        out.append(c)
+    for k in range(7 if quick else 80):
+        c = api_base(rng, tier, model=(API_MODELS + ["GN", "JTT92x"])[k % 9] if False else API_MODELS[(k + 5) % len(API_MODELS)])
+        tp = c02.tips(c["_t"])
+        mode = ["swap", "rotate3", "shuffle", "swap+internal"][k % 4]
+        if mode.startswith("swap"):
+            x, y = rng.sample(tp, 2)
+            mapping = {x: y, y: x}
+            if mode == "swap+internal":
+                inner = [n["name"] for n in c02.nodes(c["_t"]) if n["ch"] and n["len"] is not None]
+                if len(inner) >= 2:
+                    u, v = rng.sample(inner, 2)
+                    mapping.update({u: v, v: u})
+        elif mode == "rotate3":
+            x, y, z = rng.sample(tp, 3)
+            mapping = {x: y, y: z, z: x}
+        else:
+            sh = tp[:]
+            while sh == tp:
+                rng.shuffle(sh)
+            mapping = {x: y for x, y in zip(tp, sh) if x != y}
+        c["api"] = {"op": "relabel_perm", "mapping": mapping, "mode": mode}
+        out.append(c)
+    for k in range(3 if quick else 30):
+        c = api_base(rng, tier, model=API_MODELS[(k + 1) % len(API_MODELS)])
+        inner = ["root"] + [n["name"] for n in c02.nodes(c["_t"]) if n["ch"] and n["len"] is not None]
+        c["api"] = {"op": "inplace_reorder", "nodes": sorted(rng.sample(inner, rng.randint(1, len(inner))))}
+        out.append(c)
+    return out
+
+
+def lnl_close(x, y):
+    return abs(x - y) <= LNL_TOL * max(1.0, abs(x))
+
+
+def check_api(rep, case, obs, stats):
+    """comparisons for one API case; returns True when a violation was reported"""
+    op = case["api"]["op"]
+    shape = c02.shape_key(case)
+    small = strip(case)
+    stats["api"][op] = stats["api"].get(op, 0) + 1
+    if isinstance(obs, dict) and "exc" in obs:
+        rep.violation(f"raised:api-{op}:{shape}", dict(case=small, observed_impl=obs, broken="the API history made the implementation raise or hang"))
+        return True
+    if op == "relabel_perm":
+        want_tips = sorted(c02.tips(case["_t"])) if "_t" in case else sorted(n for n, _ in case["aln"])
+        if obs["tips_after"] != want_tips or not lnl_close(obs["lnL"], obs["lnL_relabelled"]):
+            rep.violation(f"relabel-perm:{shape}", dict(case=small, expected_by_spec=obs["lnL"], observed_impl=obs["lnL_relabelled"],
+                                                        tips_after=obs["tips_after"], newick_after=obs.get("newick_after"),
+                                                        broken="lnL changes (or tip labels are lost) when tips are renamed by a permutation of the "
+                                                               "existing labels with tree.reassign_names + aln.rename_seqs"))
+            return True
+        return False
+    if op == "inplace_reorder":
+        stats["pairs"] += 1
+        if not lnl_close(obs["lnL"], obs["lnL_reordered"]):
+            rep.violation("inplace-reorder", dict(case=small, expected_by_spec=obs["lnL"], observed_impl=obs["lnL_reordered"],
+                                                  broken="lnL changes (silently) when the children of nodes of the tree object are reordered in "
+                                                         "place between make_likelihood_function and set_alignment"))
+            return True
+        return False
+    res = obs["results"]
+    raised = [r for r in res if "raised" in r]
+    if raised and len(raised) < len(res) or (raised and op == "annotated_roundtrip"):
+        rep.violation(f"raised:api-{op}:{shape}", dict(case=small, observed_impl=res, broken="the same rule / round trip raises on some rootings only"))
+        return True
+    if raised:
+        stats["api_all_raised"] = stats.get("api_all_raised", 0) + 1
+        return False
+    if op == "annotated_roundtrip":
+        for r in res:
+            stats["pairs"] += 1
+            if not lnl_close(obs["lnL"], r["lnL"]):
+                rep.violation(f"annotated-roundtrip:{shape}", dict(case=small, rooting=r["rooting"], expected_by_spec=obs["lnL"], observed_impl=r["lnL"],
+                                                                   values_on_edges=r.get("values"), params=obs.get("params"),
+                                                                   broken="lf -> get_annotated_tree -> re-root -> make_likelihood_function does not reproduce lnL"))
+                return True
+        return False
+    # scoped_reroot
+    sc = case["scoped"]
+    a, c_ = sc["tip_names"]
+    tree = case.get("_t")
+    want = expected_selected(tree, a, c_, sc["outgroup_name"], sc.get("stem"), sc.get("clade")) if tree is not None else res[0]["selected"]
+    for r in res:
+        stats["pairs"] += 1
+        if r["param"] is not None and r["selected"] != want:
+            rep.violation(f"scope-rooting:{shape}", dict(case=small, rooting=r["rooting"], expected_by_spec=want, observed_impl=r["selected"],
+                                                         broken="tip_names + outgroup_name selects a different set of (unrooted) edges depending on where the tree is rooted"))
+            return True
+        if r["lengths"] != res[0]["lengths"]:
+            rep.violation(f"reroot-lengths:{shape}", dict(case=small, rooting=r["rooting"], expected_by_spec=res[0]["lengths"], observed_impl=r["lengths"],
+                                                          broken="edge lengths change when the tree is re-rooted with rooted_at / rooted_with_tip"))
+            return True
+        if not lnl_close(res[0]["lnL"], r["lnL"]):
+            rep.violation(f"reroot-scoped:{shape}", dict(case=small, rooting=r["rooting"], expected_by_spec=res[0]["lnL"], observed_impl=r["lnL"],
+                                                         broken="lnL of a reversible model with a tip_names/outgroup-scoped parameter depends on the rooting"))
+            return True
+    return False
 
 
 def strip(case):
@@ -356,17 +544,22 @@ def run(tier: str, seed: int) -> int:
     for b, vs in groups:
         flat.append(b)
         flat += vs
+    apis = api_cases(rng, tier)
     # genome-scale pair (column permutation only; lnL only): > 65535 distinct site patterns below a non-root node
     big_base, big_perm = large_pair(rng)
     import concurrent.futures as cf
 
-    with cf.ThreadPoolExecutor(max_workers=2) as ex:
+    with cf.ThreadPoolExecutor(max_workers=3) as ex:
         fut_big = ex.submit(core.run_impl_sharded, "c11_impl.py", [big_base, big_perm], None, 2)
+        fut_api = ex.submit(core.run_impl_sharded, "c11_impl.py", [strip(c) for c in apis], None, 2)
         impl = core.run_impl_sharded("c11_impl.py", [strip(c) for c in flat], nshards=min(core.NPROC, 6))
         big_obs = fut_big.result()
+        api_obs = fut_api.result()
     obs_of = {id(c): o for c, o in zip(flat, impl)}
 
-    stats = dict(pairs=0, by_xf={}, model_variants=0, model_reroot=0, refused=0, refused_modes={}, accepted_modes={}, large=None)
+    stats = dict(pairs=0, by_xf={}, model_variants=0, model_reroot=0, refused=0, refused_modes={}, accepted_modes={}, large=None, api={})
+    for c, o in zip(apis, api_obs):
+        check_api(rep, c, o, stats)
     # the large pair
     bo, po = big_obs
     if "exc" in bo or "exc" in po:
@@ -382,6 +575,7 @@ def run(tier: str, seed: int) -> int:
     disagreements = []
     model_jobs = []   # (case, obs, exact)
     reroot_jobs = []  # (path, base, obs, exact)
+    bad_params = set()
     for b, vs in groups:
         bobs = obs_of[id(b)]
         if isinstance(bobs, dict) and "exc" in bobs:
@@ -400,9 +594,12 @@ def run(tier: str, seed: int) -> int:
             o = obs_of[id(c)]
             bad = c02.param_checks(c, o) if isinstance(o, dict) and "exc" not in o and "refused" not in o else None
             if bad:
-                rep.violation(f"{bad[0]}:{c02.shape_key(c)}", dict(case=strip(c), base=strip(b), **bad[1]))
+                bad_params.add(id(c))
+                zero = bad[0] == "edge-length" and bad[1].get("expected_by_spec") == 0.0
+                rep.violation("edge-length:zero-length" if zero else f"{bad[0]}:{c02.shape_key(c)}", dict(case=strip(c), base=strip(b), **bad[1]))
         for v in vs:
-            compare_variant(rep, b, bobs, v, obs_of[id(v)], stats)
+            if id(v) not in bad_params:      # a wrong parameter value is reported once, not again through its consequence on lnL
+                compare_variant(rep, b, bobs, v, obs_of[id(v)], stats)
         if not b["light"]:
             for c in [b] + vs:
                 o = obs_of[id(c)]
@@ -495,7 +692,7 @@ def run(tier: str, seed: int) -> int:
         input_distribution=dict(base_configurations=len(bases), pairs=stats["pairs"], by_transformation=stats["by_xf"], by_model_class=dist,
                                 model_evaluated_variants=stats["model_variants"], model_reroot_paths=stats["model_reroot"],
                                 user_predicate_sets=dict(refused_by_constructor=stats["refused_modes"], accepted=stats["accepted_modes"]),
-                                large_pair=stats["large"],
+                                large_pair=stats["large"], api_cases=stats["api"],
                                 matrix=c02.distribution_matrix([(c, obs_of[id(c)]) for c in flat])),
         partial=["IEEE-754 rounding is outside the theorems (tolerance-based comparison of two runs)",
                  "reversibility / Chapman-Kolmogorov of the implementation's matrices are premises (C05), observed only numerically",
@@ -513,6 +710,22 @@ def replay(path: str) -> int:
     if "case" not in d:
         print("replay names a broken obligation, not an input:", d.get("broken") or d.get("key"))
         return 1
+    if d["case"].get("api"):
+        o = core.run_impl_lines("c11_impl.py", [d["case"]])[0]
+
+        class _R:
+            hit = None
+
+            def violation(self, key, doc, no_input=False):
+                self.hit = (key, doc)
+
+        r = _R()
+        check_api(r, d["case"], o, dict(api={}, pairs=0))
+        print("impl  :", {k: (v if k != "results" else [{kk: x.get(kk) for kk in ("rooting", "lnL", "raised")} for x in v]) for k, v in o.items() if k in ("lnL", "lnL_relabelled", "results", "tips_after", "exc")})
+        if r.hit:
+            print("oracle:", r.hit[1].get("broken"), "-- expected", str(r.hit[1].get("expected_by_spec"))[:200], "observed", str(r.hit[1].get("observed_impl"))[:200])
+        print("REPRODUCED" if r.hit else "not reproduced")
+        return 1 if r.hit else 0
     if "base" not in d:
         o = core.run_impl_lines("c11_impl.py", [dict(d["case"], light=True)])[0]
         print("impl  :", {k: o[k] for k in o if k in ("exc", "tb", "lnL")})
